@@ -223,8 +223,17 @@ def cases(draw):
     ample = 4 * L + 10
     max_iters = draw(st.sampled_from([ample, ample, ample, 1, 3, max(1, L // 2)]))
     mode = draw(st.sampled_from(['jit', 'jit', 'vmap', 'plain']))
+    newton_budget = False
+    if fam == 'exp' and kind == 'around' and draw(st.booleans()):
+        # Newton acceleration must actually work: at the tightest admissible tolerance pure bisection needs ~48 steps;
+        # on the unchanged tree this smooth convex family never needed more than 23 (5000 generated cases), so a
+        # budget of 40 iterations has to suffice.  A change that silently degrades the method to bisection is caught.
+        x_tol = 16 * ulp
+        if w >= big / 8:
+            max_iters, ample, newton_budget = 40, 40, True
     return {'fam': fam, 'theta': th, 'bracket': bracket, 'x0': x0, 'x_tol': x_tol, 'r_tol': r_tol,
-            'max_iters': max_iters, 'ample': ample, 'mode': mode, 'bkind': kind, 'gkind': gk}
+            'max_iters': max_iters, 'ample': ample, 'mode': mode, 'bkind': kind, 'gkind': gk,
+            'newton_budget': newton_budget}
 
 
 def check(case):
@@ -271,7 +280,7 @@ def check(case):
     results = [x] + (extra if mode == 'vmap' else [])
     roots = roots_of(fam, [float(t) for t in case['theta']])
     mult = {'flat3': 3, 'flat5': 5}.get(fam, 1)
-    classes = [fam, mode, case['bkind'], 'guess-' + case['gkind']]
+    classes = [fam, mode, case['bkind'], 'guess-' + case['gkind']] + (['newton-budget'] if case.get('newton_budget') else [])
     special = None
     for idx, xr in enumerate(results):
         tag = '' if idx == 0 else ' (vmap lane %d)' % idx
@@ -307,7 +316,7 @@ def check(case):
         # a point where the computed residual is zero / at rounding-noise level is as good a root as the
         # floating-point function has (e.g. exp(k x) - 1 evaluates to exactly 0 on a whole interval)
         noise = f_noise(fam, xr, case['theta'])
-        if not ((case['r_tol'] > 0 and abs(fx) < case['r_tol']) or abs(fx) <= noise or dist <= tol):
+        if not ((case['r_tol'] > 0 and abs(fx) <= case['r_tol']) or abs(fx) <= noise or dist <= tol):
             fails.append(Failure('tolerance', 'returned %r: nearest root at distance %.3e > %.3e and |f|=%.3e, r_tol=%r%s'
                                  % (xr, dist, tol, abs(fx), case['r_tol'], tag)))
     if conv != (not math.isnan(x)):
@@ -342,5 +351,5 @@ def check(case):
 SUBCHECKS = [
     Sub('root', cases, check, quick=700, thorough=30000, shards_quick=16, shards_thorough=16,
         required=FAMILIES + ('jit', 'vmap', 'plain', 'no-sign-change', 'end-root', 'iteration-cap',
-                             'gradient-checked', 'iters>=3'), budget_quick=170),
+                             'gradient-checked', 'iters>=3', 'newton-budget'), budget_quick=170),
 ]
